@@ -153,7 +153,10 @@ def render_frag(rng, g, nodes, desc, atom_text=None, anno_p=0.0):
         bracket_all = late and rng.random() < 0.4
         nbr = len(kids) if bracket_all else len(kids) - 1
         after = rng.randint(1, nbr) if (late and nbr >= 1) else None
-        if after is None:
+        if u == start and d and after is None and rng.random() < 0.25:
+            # the first atom's descriptors written in front of it: '[$]=C...' (the order symbol follows the descriptor)
+            s = ''.join('[' + txt + ']' + SYM[o] for (txt, o) in desc.get(u, [])) + s + rs
+        elif after is None:
             if d and rs and rng.random() < 0.5:
                 s += d + rs
             else:
@@ -444,18 +447,18 @@ def ambiguous_case(rng):
             'legacy': rng.random() < 0.6}
 
 
-def polymer_case(rng):
+def polymer_case(rng, big=False):
     """homopolymers / copolymers / rings of identical units / grafts with unlabelled descriptors: surplus
     descriptors are filled with hydrogen"""
     units = {'PEO': '[$]COC[$]', 'PE': '[$]CC[$]', 'PS': '[$]CC[$]c1ccccc1', 'PMA': '[>]CC[<]C(=O)OC',
              'PP': '[>]CC(C)[<]', 'OH': '[$]O', 'ME': '[$]C', 'NH': '[$]N[$]', 'AM': '[<]C(=O)N[>]',
              'BR': '[$]C([$])[$]', 'PH': '[$]c1ccc([$])cc1', 'PV': '[>]C=C[<]', 'VI': '[$]=CC=[$]'}
     names = rng.sample(sorted(units), rng.randint(1, 3))
-    shape = rng.choice(['chain', 'mult', 'ring', 'graft'])
+    shape = 'mult' if big else rng.choice(['chain', 'mult', 'ring', 'graft'])
     if shape == 'chain':
         body = ''.join('[#%s]' % rng.choice(names) for _ in range(rng.randint(1, 6)))
     elif shape == 'mult':
-        body = '[#%s]|%d' % (names[0], rng.randint(2, 5)) + ''.join('[#%s]' % n for n in names[1:])
+        body = '[#%s]|%d' % (names[0], rng.randint(6, 14) if big else rng.randint(2, 5)) + ''.join('[#%s]' % n for n in names[1:])
     elif shape == 'ring':
         k = rng.randint(3, 6)
         body = '[#%s]1' % names[0] + ''.join('[#%s]' % rng.choice(names) for _ in range(k - 2)) + '[#%s]1' % names[0]
